@@ -905,6 +905,8 @@ func exec(c px.Context, op string, args []sx.Sexp) (res core.Result) {
 	switch op {
 	case "call":
 		return execCall(c, args)
+	case "calls":
+		return execCalls(c, args)
 	case "new":
 		return execNew(c, args)
 	case "newm":
